@@ -549,7 +549,7 @@ impl Curve {
         // Encode the chain as:
         // 2l (doubling l times)
         // ±k (add/sub kP where k is odd)
-        let mut c = [0_i8; 32];
+        let mut c = [0_i8; 34];
         let l = ecm::Curve::make_addition_chain(&mut c, k);
         // Get initial element (chain[l-1] = 1 or 3 or 5 or 7)
         let mut q = gaps[c[l - 1] as usize / 2].proj();
